@@ -141,3 +141,19 @@ Definition wweight (w : wentry) : nat := match w with WFrame _ => 1 | WClose _ =
 Definition wsum {A : Type} (f : A -> nat) (l : list A) : nat := fold_right (fun x a => f x + a) 0 l.
 Definition measure (s : st) : nat :=
   wsum task_weight (tasks s) + wsum job_weight (jobs s) + wsum wweight (wq s) + length (exitq s).
+
+(* ---------------------------------------------------------------- domain of the model: handler-raised codes *)
+(* lsprotocol validates ResponseError.code as an int32: for a handler that raises a JsonRpcException whose
+   code is outside that range `to_response_error()` itself raises inside the except-branch and the real
+   endpoint sends NO reply (C07 finding `wide-own-code`), whereas Model/Endpoint.v answers `PError code`.
+   The model is therefore claimed faithful - and the theorems about "answered" are stated - only for
+   histories whose request handlers raise int32 codes; the generators respect this. *)
+Definition int32 (z : Z) : bool := (Z.leb (-2147483648) z && Z.leb z 2147483647)%Z.
+Definition behav_code_ok (b : behav) : bool := match bout b with ORaiseRpc c => int32 c | _ => true end.
+Definition ev_codes_ok (e : ev) : bool :=
+  match e with
+  | Recv (FReq _ _ _ (RUser b)) => behav_code_ok b
+  | Recv (FReq _ _ _ (RCommand (Some b) _)) => behav_code_ok b
+  | _ => true
+  end.
+Definition handler_codes_int32 (evs : list ev) : bool := forallb ev_codes_ok evs.
